@@ -200,6 +200,13 @@ def gen(tier, rng):
                 if ids is not None:
                     c['ids'] = ids
                 yield c
+    # spike counts whose pairwise products exceed 2^31 (a 14 Hz unit over one hour)
+    big = [[50000, 47000], [46341, 46341, 5]] if q else [[50000, 47000], [46341, 46341, 5], [70000, 3, 31000],
+                                                          [46340, 46342], [100000], [65536, 65536, 65537]]
+    for counts in big:
+        sc = [i for i, n in enumerate(counts) for _ in range(n)]
+        ids = list(range(len(counts)))[::-1] + [len(counts) + 2]
+        yield dict(p=PID, op='firing', sc=sc, ids=ids, bs=0.5, dur=3600.0)
     # random long trains
     R = 150 if q else 3000
     for _ in range(R):
